@@ -186,7 +186,7 @@ func (c *Conn) HalfClose() bool {
 	if c.eof == nil {
 		return false
 	}
-	c.eof.halfClose()
+	c.eof.halfClose(c.Client.Written())
 	return true
 }
 
@@ -374,6 +374,7 @@ type eofConn struct {
 
 	half     chan struct{}
 	halfOnce sync.Once
+	pumped   atomic.Int64 // bytes queued for the broker so far
 }
 
 type eofChunk struct {
@@ -389,6 +390,7 @@ func newEOFConn(c net.Conn) *eofConn {
 			n, err := c.Read(buf)
 			select {
 			case e.ch <- eofChunk{buf[:n], err}:
+				e.pumped.Add(int64(n))
 			case <-e.half:
 				return // the stream was ended by halfClose; nothing is delivered after it
 			}
@@ -401,11 +403,15 @@ func newEOFConn(c net.Conn) *eofConn {
 	return e
 }
 
-// halfClose queues the end of the stream behind the bytes written so far (a
-// pipe Write returns when the pump goroutine has taken the bytes, and the pump
-// queues them before it reads on).
-func (e *eofConn) halfClose() {
+// halfClose queues the end of the stream behind the tx bytes the client has
+// written so far: a pipe Write returns when the pump goroutine has taken the
+// bytes, but the pump queues them afterwards, so the end of the stream waits
+// until the pump has queued them all.
+func (e *eofConn) halfClose(tx int64) {
 	e.halfOnce.Do(func() {
+		for i := 0; i < 40000 && e.pumped.Load() < tx; i++ {
+			time.Sleep(250 * time.Microsecond)
+		}
 		select {
 		case e.ch <- eofChunk{nil, io.EOF}:
 		case <-time.After(10 * time.Second):
